@@ -67,9 +67,9 @@ var c07Templates = []c07Tpl{
 			"let one () =\n  1\n",
 			"let two () =\n  2\n",
 		},
-		target: "let getv (b: GBox<int>) =\n  b.Value + one ()\n\nlet mkvalue (a:int) =\n  {Value=a}\n",
-		marks:  []string{"func getv(", "func mkvalue("},
-		extra:  "type GBox_int = {Value: string; Extra: int}\n\nlet label (x: GBox_int) =\n  x.Value\n",
+		target: "let getv (b: GBox<int>) =\n  b.Value\n\nlet getw (b: GBox<int>) =\n  b.Value + one ()\n\nlet mkvalue (a:int) =\n  {Value=a}\n",
+		marks:  []string{"func getv(", "func getw(", "func mkvalue("},
+		extra:  "type GBox_int = {Value: string}\n\nlet label (x: GBox_int) =\n  x.Value\n",
 	},
 }
 
